@@ -1,6 +1,7 @@
 package main
 
 import (
+	"io"
 	"context"
 	"errors"
 	"flag"
@@ -269,6 +270,9 @@ func c16Run(entry string, ok0, ok1, stub0, stub1 bool, events []string) string {
 		}
 		closedRet = true
 		if !cancelled {
+			// a caller reads what it was given (to the end, and once more) before closing it
+			io.ReadAll(res.r)
+			res.r.Read(make([]byte, 1))
 			// give a wrong early cancel the time to show
 			time.Sleep(10 * time.Millisecond)
 			if ms[chosen()].ctxCancelled() || ms[chosen()].closes.Load() != 0 {
